@@ -1,0 +1,204 @@
+//go:build verif
+
+// Contracts for lookup_peer.go, lookup.go and NSQD.GetTopic (C16), checked by nsqvc. Comment-only file.
+
+package nsqd
+
+// readResponseBounded: reads a 4-byte big-endian size and then exactly that many bytes.
+// From C16: "No nsqlookupd behaviour - ... malformed, negative-sized or oversized replies - crashes nsqd".
+//  * the automatic safety[make] obligation is "never allocates a negative size";
+//  * [bounded]: a reply is never larger than the limit (oversized announcements are refused before allocating);
+//  * [short-read]: a reply is returned only if the body was read completely, and it is the buffer that was filled.
+//@ func readResponseBounded(r io.Reader, limit int64) ([]byte, error)
+//@   props C16
+//@   ensures[bounded] result1 == nil ==> 0 <= len(result0) && len(result0) <= limit
+//@   ensures[short-read] result1 == nil ==> rfErr == nil && rfLen == len(result0)
+//@   ensures[error-no-data] result1 != nil ==> result0 == nil
+//@   ensures[fresh] result1 == nil ==> fresh(result0)
+//@   modifies rfErr, rfLen
+
+// ---------------------------------------------------------------------------------------------
+// lookupPeer: lazily connecting client of one nsqlookupd. Ghosts (see .trusted/lookup.spec):
+// rdlConn/rdlAt, wdlConn/wdlAt = connection and instant of the last read / write deadline armed;
+// readArmed/writeArmed = the last conn.Read / conn.Write found its own deadline armed; ioConn = its connection;
+// closedConn = last connection closed; dialAddr/dialErr = address and outcome of the last dial.
+//@ immutable lookupPeer.addr, lookupPeer.maxBodySize, lookupPeer.logf, lookupPeer.connectCallback
+
+// Read: arms a READ deadline one second after the clock reading on lp's connection, then reads from it
+// (a stalled nsqlookupd cannot block nsqd for more than the deadline).
+//@ func (lp *lookupPeer) Read(data []byte) (int, error)
+//@   props C16
+//@   requires lp != nil && lp.conn != nil
+//@   ensures[read-deadline] rdlConn == lp.conn && unixNano(rdlAt) == unixNano(lastNow) + 1000000000
+//@   ensures[deadline-before-read] readArmed && ioConn == lp.conn
+//@   ensures[count] 0 <= result0 && result0 <= len(data)
+//@   modifies elems(data), rdlConn, rdlAt, readArmed, ioConn, lastNow
+
+//@ func (lp *lookupPeer) Write(data []byte) (int, error)
+//@   props C16
+//@   requires lp != nil && lp.conn != nil
+//@   ensures[write-deadline] wdlConn == lp.conn && unixNano(wdlAt) == unixNano(lastNow) + 1000000000
+//@   ensures[deadline-before-write] writeArmed && ioConn == lp.conn
+//@   ensures[count] 0 <= result0 && result0 <= len(data)
+//@   modifies wdlConn, wdlAt, writeArmed, ioConn, lastNow, wrLast, wrErr
+//@   onreturn wrLast := data
+//@   onreturn wrErr := result1
+
+// Close: whatever happens the peer ends up disconnected (so the next Command reconnects); an existing
+// connection is closed.
+//@ func (lp *lookupPeer) Close() error
+//@   props C16
+//@   requires lp != nil
+//@   ensures[disconnected] lp.state == stateDisconnected
+//@   ensures[conn-closed] lp.conn != nil ==> closedConn == lp.conn
+//@   ensures[no-conn-no-error] lp.conn == nil ==> result == nil
+//@   modifies lp.state, closedConn
+
+// Connect: dials lp.addr; success stores a connection. The body calls lp.logf, a function-typed field:
+// the engine treats that as an opaque call, so no frame can be proved for Connect (callers lose the heap).
+//@ func (lp *lookupPeer) Connect() error
+//@   props C16
+//@   requires lp != nil
+//@   ensures[has-conn] result == nil ==> lp.conn != nil
+//@   ensures[dialed-own-address] dialAddr == lp.addr && result == dialErr
+
+// Command: one round trip, connecting first when the peer is not connected.
+// From C16 (dropped connections, bad replies, restarts => converge again within a few heartbeats):
+//  * [ok-connected]   success leaves the peer connected;
+//  * [error-not-connected] after ANY failure the peer is not left in stateConnected, so the next heartbeat
+//    reconnects: write errors, read errors, short / oversized replies and a failed connectCallback all end in
+//    Close(); the only other failure is the dial error itself, returned unchanged while the peer was not connected
+//    (Connect has no provable frame, see above, hence the second disjunct);
+//  * [reply-bounded], [reply-complete] a reply is complete and never larger than max-body-size;
+//  * [connect-then-magic] on the branch that connects without running connectCallback (initial state neither
+//    connected nor disconnected) the peer dialled its own address and the last thing written is the V1 magic.
+//    [connect-succeeds]: on that branch, if the dial and the magic write succeed, so does Command.
+//    On the stateDisconnected branch the callback is an opaque call (function-typed field): all ghosts are
+//    lost there, see ENGINE GAPS in NOTES.md.
+// Precondition: the representation invariant "connected => has a connection".
+//@ func (lp *lookupPeer) Command(cmd *nsq.Command) ([]byte, error)
+//@   props C16
+//@   requires lp != nil && (lp.state == stateConnected ==> lp.conn != nil)
+//@   ensures[ok-connected] result1 == nil ==> lp.state == stateConnected
+//@   ensures[error-not-connected] result1 != nil ==> lp.state != stateConnected || (old(lp.state) != stateConnected && result1 == dialErr)
+//@   ensures[error-no-data] result1 != nil ==> result0 == nil
+//@   ensures[reply-bounded] result1 == nil && cmd != nil ==> 0 <= len(result0) && len(result0) <= lp.maxBodySize
+//@   ensures[reply-complete] result1 == nil && cmd != nil ==> rfErr == nil && rfLen == len(result0)
+//@   ensures[no-command-no-reply] cmd == nil ==> result0 == nil
+//@   ensures[connect-succeeds] old(lp.state) != stateConnected && old(lp.state) != stateDisconnected && cmd == nil && dialErr == nil && wrErr == nil ==> result1 == nil
+//@   ensures[connect-then-magic] old(lp.state) != stateConnected && old(lp.state) != stateDisconnected && cmd == nil && result1 == nil ==> dialAddr == lp.addr && dialErr == nil && wrLast == nsq.MagicV1 && lp.conn != nil
+
+// ---------------------------------------------------------------------------------------------
+// NSQD.GetTopic (C16): "A topic first created on an nsqd starts with every non-ephemeral channel its
+// nsqlookupds already know for it, so those channels receive its very first message."
+//
+// Call-order ghosts. watchName / watchTopic are never assigned: they are arbitrary, so a statement about
+// them is a statement about every channel name and every topic.
+//   watchCreated  - GetChannel(watchName) was called on watchTopic since the last look-up (reset by the look-up)
+//   startCount    - number of Topic.Start calls; startedTopic - the topic of the last one
+//   startSawWatch - value of watchCreated when Start was last called
+//   luNames/luErr/luTopic/luCount - result, topic and count of GetLookupdTopicChannels calls
+//   luAddrs       - the last list of lookupd HTTP addresses computed by lookupdHTTPAddrs
+//@ ghost watchName string
+//@ ghost watchTopic *Topic
+//@ ghost startCount int
+//@ ghost startedTopic *Topic
+//@ ghost startSawWatch bool
+//@ ghost luAddrs []string
+
+//@ immutable Topic.name, Topic.nsqd, NSQD.ci
+
+//@ lock NSQD.RWMutex guards topicMap, mapsof(map[string]*Topic)
+//@   invariant[map] self.topicMap != nil
+//@   invariant[values] forall k string :: {self.topicMap[k]} has(self.topicMap, k) ==> self.topicMap[k] != nil && self.topicMap[k].nsqd != nil
+
+//@ lock Topic.RWMutex guards channelMap, mapsof(map[string]*Channel)
+//@   invariant[map] self.channelMap != nil
+//@   invariant[values] forall k string :: {self.channelMap[k]} has(self.channelMap, k) ==> self.channelMap[k] != nil
+
+// Constructors (assumed, bodies not verified: they build disk queues, start goroutines and notify
+// the lookup loop): a fresh object with the given identity; no existing modelled state changes.
+//@ func NewTopic(topicName string, nsqd *NSQD, deleteCallback func(*Topic)) *Topic
+//@   trusted
+//@   ensures result != nil && fresh(result) && result.name == topicName && result.nsqd == nsqd
+//@   modifies
+//@ func NewChannel(topicName string, channelName string, nsqd *NSQD, deleteCallback func(*Channel)) *Channel
+//@   trusted
+//@   ensures result != nil && fresh(result) && result.name == channelName && result.topicName == topicName && result.nsqd == nsqd
+//@   modifies
+
+// n.lookupPeers (an atomic.Value) only ever holds a []*lookupPeer (single Store in lookupLoop), so the
+// type assertion in the body cannot fail; the function only reads. Assumed (same reason as getOpts).
+//@ func (n *NSQD) lookupdHTTPAddrs() []string
+//@   trusted
+//@   modifies luAddrs
+//@   onreturn luAddrs := result
+
+//@ func (t *Topic) Start()
+//@   props C16
+//@   requires t != nil
+//@   modifies startedTopic, startSawWatch
+//@   onreturn startCount := startCount + 1
+//@   onreturn startedTopic := t
+//@   onreturn startSawWatch := watchCreated
+
+//@ func (t *Topic) getOrCreateChannel(channelName string) (*Channel, bool)
+//@   props C16
+//@   requires t != nil && t.nsqd != nil && t.channelMap != nil
+//@   requires[values] forall k string :: {t.channelMap[k]} has(t.channelMap, k) ==> t.channelMap[k] != nil
+//@   ensures[present] result0 != nil && has(t.channelMap, channelName) && t.channelMap[channelName] == result0
+//@   ensures[is-new] result1 == !old(has(t.channelMap, channelName))
+//@   ensures[existing-kept] old(has(t.channelMap, channelName)) ==> result0 == old(t.channelMap[channelName])
+//@   ensures[named] !old(has(t.channelMap, channelName)) ==> result0.name == channelName && result0.topicName == t.name
+//@   ensures[others] forall k string :: {t.channelMap[k]} k != channelName ==> (has(t.channelMap, k) <==> old(has(t.channelMap, k))) && t.channelMap[k] == old(t.channelMap[k])
+//@   ensures[values] forall k string :: {t.channelMap[k]} has(t.channelMap, k) ==> t.channelMap[k] != nil
+//@   modifies mapstore(map[string]*Channel)
+
+// GetChannel: afterwards the channel exists in the topic (at release of the topic lock).
+//@ func (t *Topic) GetChannel(channelName string) *Channel
+//@   props C16
+//@   requires t != nil && t.nsqd != nil
+//@   ensures[exists] result != nil && atunlock(has(t.channelMap, channelName)) && atunlock(t.channelMap[channelName]) == result
+//@   modifies t.channelMap, mapstore(map[string]*Channel)
+//@   onreturn channelName == watchName && t == watchTopic ==> watchCreated := true
+
+// GetTopic.
+//  [existing-returned]    a known topic is returned as is and not started again;
+//  [registered]           a new topic is in the topic map (at release of the write lock) under its name;
+//  [new-topic-started]    a new topic is started by this call unless nsqd is loading its metadata - whatever the
+//                         look-up answered ("a lookup failure is only logged");
+//  [lookup-when-peers]    ... after one look-up for this topic's name if any lookupd HTTP address is known;
+//  [channels-before-start] if this call did a look-up and started the topic then, at the moment of Start, every
+//                         non-ephemeral name the look-up returned had been passed to GetChannel of the new topic
+//                         after the look-up - also when the look-up returned an error together with names.
+//@ func (n *NSQD) GetTopic(topicName string) *Topic
+//@   props C16
+//@   requires n != nil && n.ci != nil
+//@   ensures[topic] result != nil
+//@   ensures[existing-returned] atlock(has(n.topicMap, topicName)) ==> result == atlock(n.topicMap[topicName]) && startCount == old(startCount) && luCount == old(luCount)
+//@   ensures[registered] !atlock(has(n.topicMap, topicName)) ==> atunlock(has(n.topicMap, topicName)) && atunlock(n.topicMap[topicName]) == result && result.name == topicName && fresh(result)
+//@   ensures[new-topic-started] !atlock(has(n.topicMap, topicName)) && n.isLoading != 1 ==> startCount == old(startCount) + 1 && startedTopic == result
+//@   ensures[loading-not-started] !atlock(has(n.topicMap, topicName)) && n.isLoading == 1 ==> startCount == old(startCount) && luCount == old(luCount)
+//@   ensures[lookup-when-peers] !atlock(has(n.topicMap, topicName)) && n.isLoading != 1 && len(luAddrs) > 0 ==> luCount == old(luCount) + 1 && luTopic == topicName
+//@   ensures[channels-before-start] startCount != old(startCount) && luCount != old(luCount) && result == watchTopic ==>
+//@        (forall k int :: {luNames[k]} 0 <= k && k < len(luNames) && luNames[k] == watchName && !isEph(watchName) ==> startSawWatch)
+//@   modifies n.topicMap, mapstore(map[string]*Topic), Topic.channelMap, mapstore(map[string]*Channel),
+//@        luNames, luErr, luTopic, luCount, luAddrs, watchCreated, startCount, startedTopic, startSawWatch
+//@   loop 0
+//@     invariant[names] channelNames == luNames
+//@     invariant[lucount] luCount == old(luCount) + 1
+//@     invariant[lutopic] luTopic == topicName
+//@     invariant[notstarted] startCount == old(startCount)
+//@     invariant[topic] t != nil && t.nsqd != nil && t.name == topicName
+//@     invariant[created-so-far] forall k int :: {channelNames[k]} 0 <= k && k <= rangeindex && k < len(channelNames) && channelNames[k] == watchName && !isEph(watchName) && t == watchTopic ==> watchCreated
+
+// ---------------------------------------------------------------------------------------------
+// lookup.go. in(s, lst): membership test used to diff the configured lookupd addresses against the
+// current peers (runtime reconfiguration of the lookupd list).
+//@ func in(s string, lst []string) bool
+//@   props C16
+//@   ensures[found] result ==> (exists k int :: {lst[k]} 0 <= k && k < len(lst) && lst[k] == s)
+//@   ensures[not-found] !result ==> (forall k int :: {lst[k]} 0 <= k && k < len(lst) ==> lst[k] != s)
+//@   modifies
+//@   loop 0
+//@     invariant[none-so-far] forall k int :: {lst[k]} 0 <= k && k <= rangeindex && k < len(lst) ==> lst[k] != s
